@@ -5,6 +5,7 @@ import (
 	"fmt"
 	"io"
 	"os"
+	"syscall"
 
 	gots "github.com/Comcast/gots/v2"
 	"github.com/Comcast/gots/v2/packet"
@@ -103,6 +104,8 @@ func c18CheckWrite(c c18WriteCase) engine.Result {
 			// the failing write reports 0, 188 or 100 bytes together with its error (the library's own
 			// accumulator reports 188 for every packet it refuses)
 			spw.FailN = []int{0, 188, 100}[(wfail+3)%3]
+			// ... and rotates through the error values a packet writer may fail with
+			spw.FailErr = [...]error{nil, io.EOF, io.ErrShortWrite, syscall.EPIPE, io.ErrUnexpectedEOF}[(wfail+c.Len+5)%5]
 			w := c18Make(c.Adapter, &spw)
 			desc := func() string {
 				return fmt.Sprintf("%s.Write of %d bytes (write %d), packet write #%d fails", c18Adapters[c.Adapter], c.Len, second+1, wfail)
@@ -142,7 +145,7 @@ func c18CheckWrite(c c18WriteCase) engine.Result {
 				}
 			case wfail >= 0 && wfail < base+k:
 				res.Event("Write: a packet write fails")
-				if err != ref.ErrScriptedWrite {
+				if err != spw.InjectedErr() {
 					res.Failf("Write|multiple-of-188,failing-write|error", "%s: n=%d err=%v, want the packet writer's error", desc(), n, err)
 				}
 				if spw.Calls != wfail+1 {
@@ -234,7 +237,7 @@ func c18JudgeReadFrom(res *engine.Result, data []byte, sr *ref.ScriptedReader, s
 			res.Failf(sig("delivered-after-failed-write"), "%s: want no call after failing call #%d", full(), spw.FailAt)
 		}
 		// both faults happened: the statement does not rank them
-		if err != ref.ErrScriptedWrite && !(rFailed && err == sr.InjectedErr()) {
+		if err != spw.InjectedErr() && !(rFailed && err == sr.InjectedErr()) {
 			res.Failf(sig("error"), "%s: want the packet writer's error", full())
 		}
 	case rFailed:
@@ -299,7 +302,11 @@ func c18CheckUniform(c c18UniCase) engine.Result {
 			sr.FailErr = os.ErrDeadlineExceeded // a read deadline that expired (net.Conn, pipes)
 		case 5:
 			sr.FailErr = c18TimeoutErr{} // a net.Error-style timeout
+		case 6:
+			sr.FailErr = syscall.EINTR // an interrupted system call, as a reader passes it up
 		}
+		// ... and through the values a failing packet writer may return
+		spw.FailErr = [...]error{nil, io.EOF, io.ErrShortWrite, syscall.EPIPE, io.ErrUnexpectedEOF}[variant%5]
 		spw.Reset(wfail)
 		spw.FailN = []int{0, 188, 100}[variant%3]
 		w := c18Make(c.Adapter, &spw)
@@ -505,11 +512,23 @@ func c18TreeBody(adapter, packets, tail int) func(ch *engine.Chooser) engine.Res
 		spw.FailN = engine.Pick(ch, "failing-write-reports-bytes", []int{0, 188, 100})
 		sr := &ref.ScriptedReader{Data: data, Ch: ch, Faults: true, Align: 188, Empties: true}
 		sr.FailOnce = ch.Bool("reader-error-is-transient")
-		switch ch.Choose("reader-error-kind", 3) {
+		switch ch.Choose("reader-error-kind", 6) {
 		case 1:
 			sr.FailErr = io.ErrUnexpectedEOF
 		case 2:
 			sr.FailErr = c18WrappedEOF
+		case 3:
+			sr.FailErr = syscall.EINTR
+		case 4:
+			sr.FailErr = os.ErrDeadlineExceeded
+		case 5:
+			sr.FailErr = c18TimeoutErr{}
+		}
+		switch ch.Choose("writer-error-kind", 3) {
+		case 1:
+			spw.FailErr = io.EOF
+		case 2:
+			spw.FailErr = syscall.EPIPE
 		}
 		w := c18Make(adapter, spw)
 		var n int64
@@ -537,7 +556,7 @@ func init() {
 	scen := []engine.ScenarioRunner{
 		&engine.Enum[c18WriteCase]{
 			Name: "write-all-lengths",
-			Rule: "Write through each of IOWriter, IOWriteCloser, IOWriter(NopCloser), IOWriter(PacketWriterFunc) and both constructors over a packet writer that also has a raw Write([]byte) method of its own, with a slice of every length 0..3*188+1 (thorough 0..6*188+1) of pairwise distinct packets x failing packet write at no index and at every index (0..k), and for multiples of 188 a second Write of the same slice through the same adapter with the failure at every index of the second write: multiple of 188 => one delivery per packet, in order, each byte-equal to its 188 bytes (copied at call time), n == len and nil error if none fails, else the writer's error and no delivery after the failing one (n then not asserted); other lengths => ErrInvalidPacketLength and zero deliveries; input slice never modified; non-trivial = length > 0",
+			Rule: "Write through each of IOWriter, IOWriteCloser, IOWriter(NopCloser), IOWriter(PacketWriterFunc) and both constructors over a packet writer that also has a raw Write([]byte) method of its own, with a slice of every length 0..3*188+1 (thorough 0..6*188+1) of pairwise distinct packets x failing packet write (its error rotating through the scripted error, io.EOF, io.ErrShortWrite, syscall.EPIPE, io.ErrUnexpectedEOF) at no index and at every index (0..k), and for multiples of 188 a second Write of the same slice through the same adapter with the failure at every index of the second write: multiple of 188 => one delivery per packet, in order, each byte-equal to its 188 bytes (copied at call time), n == len and nil error if none fails, else the writer's error and no delivery after the failing one (n then not asserted); other lengths => ErrInvalidPacketLength and zero deliveries; input slice never modified; non-trivial = length > 0",
 			Gen: func(r *engine.Run, emit func(c18WriteCase)) {
 				maxPk := 3
 				if r.Thorough() {
@@ -553,7 +572,7 @@ func init() {
 		},
 		&engine.Enum[c18UniCase]{
 			Name: "readfrom-uniform-chunks",
-			Rule: "ReadFrom over streams of 0..3 packets + tail {0,1,187} bytes (thorough 0..4 packets, tail {0,1,94,187}) x reader that hands out exactly c bytes per call for every c in 1..377 (for c in {1..4,93..95,186..190,377} also with 1 or 2 Reads answering (0,nil) before every data Read) x EOF on a separate call / attached to the last data x injected reader error at no call and at every call (without and together with that call's data) x failing packet write at no index and every index; adapter rotates with the case in quick, all four in thorough. the injected error rotates through a plain error, io.ErrUnexpectedEOF, an error wrapping io.EOF, os.ErrDeadlineExceeded and a net.Error-style timeout; after every run that ended with a fault or a partial packet the SAME adapter reads a second, sound stream of two packets, which must come out as from a fresh adapter. Oracle: deliveries == the stream's complete packets in order, byte-equal; n == 188 x successful deliveries; no fault => all complete packets delivered, ErrInvalidPacketLength iff a partial tail remains, else nil; reader error => that error, and every packet completed by the bytes handed out (also those that came together with the error) delivered; writer error => that error (either one if both occurred) and no delivery after it; non-trivial = chunk < 188 and shorter than the stream (some packet is cut)",
+			Rule: "ReadFrom over streams of 0..3 packets + tail {0,1,187} bytes (thorough 0..4 packets, tail {0,1,94,187}) x reader that hands out exactly c bytes per call for every c in 1..377 (for c in {1..4,93..95,186..190,377} also with 1 or 2 Reads answering (0,nil) before every data Read) x EOF on a separate call / attached to the last data x injected reader error at no call and at every call (without and together with that call's data) x failing packet write at no index and every index; adapter rotates with the case in quick, all four in thorough. the injected error rotates through a plain error, io.ErrUnexpectedEOF, an error wrapping io.EOF, os.ErrDeadlineExceeded, a net.Error-style timeout and syscall.EINTR, the failing packet writer's error through the scripted error, io.EOF, io.ErrShortWrite, syscall.EPIPE and io.ErrUnexpectedEOF; after every run that ended with a fault or a partial packet the SAME adapter reads a second, sound stream of two packets, which must come out as from a fresh adapter. Oracle: deliveries == the stream's complete packets in order, byte-equal; n == 188 x successful deliveries; no fault => all complete packets delivered, ErrInvalidPacketLength iff a partial tail remains, else nil; reader error => that error, and every packet completed by the bytes handed out (also those that came together with the error) delivered; writer error => that error (either one if both occurred) and no delivery after it; non-trivial = chunk < 188 and shorter than the stream (some packet is cut)",
 			Gen: func(r *engine.Run, emit func(c18UniCase)) {
 				pks, tails := c18Shapes(r.Thorough())
 				for _, p := range pks {
@@ -636,7 +655,7 @@ func init() {
 			extra := p == 4 || t == 94
 			scen = append(scen, &c18Tree{Tree: engine.Tree{
 				Name: fmt.Sprintf("readfrom-tree-%dp+%d", p, t),
-				Rule: fmt.Sprintf("ReadFrom through %s over a stream of %d packets + %d bytes with the scripted environment: first choice = failing packet write (none, index 0..%d), then at every Read optionally an empty answer (0,nil) first (at most two in a row), the amount (all that fits, 1, half, up to the next 188-boundary of the stream, +1, -1), a fault (none, error without data, error together with the data; the error sticky or transient, the injected error, io.ErrUnexpectedEOF or an error that wraps io.EOF; a failing packet write reporting 0, 188 or 100 bytes) and, with the last byte, EOF separate / attached; deviations from the all-default run <= 6 (thorough 8); same oracle as readfrom-uniform-chunks; non-trivial = execution with at least one deviation", c18Adapters[(p+2*t)%len(c18Adapters)], p, t, p-1),
+				Rule: fmt.Sprintf("ReadFrom through %s over a stream of %d packets + %d bytes with the scripted environment: first choice = failing packet write (none, index 0..%d), then at every Read optionally an empty answer (0,nil) first (at most two in a row), the amount (all that fits, 1, half, up to the next 188-boundary of the stream, +1, -1), a fault (none, error without data, error together with the data; the error sticky or transient, the injected error, io.ErrUnexpectedEOF, an error that wraps io.EOF, syscall.EINTR, os.ErrDeadlineExceeded or a net.Error-style timeout; a failing packet write reporting 0, 188 or 100 bytes with the scripted error, io.EOF or syscall.EPIPE) and, with the last byte, EOF separate / attached; deviations from the all-default run <= 6 (thorough 8); same oracle as readfrom-uniform-chunks; non-trivial = execution with at least one deviation", c18Adapters[(p+2*t)%len(c18Adapters)], p, t, p-1),
 				Bound: func(r *engine.Run) int {
 					if r.Thorough() {
 						return 8
